@@ -323,7 +323,9 @@ def run_plan(plan, cfg=None):
             except Abandoned:
                 errors[i] = "abandoned"
             except BaseException as e:
-                errors[i] = f"{type(e).__name__}: {e}"[:300]
+                import traceback
+
+                errors[i] = f"{type(e).__name__}: {e} {traceback.format_exc()[-800:]}"
             finally:
                 sys.settrace(None)
                 th.sim_call = None
@@ -349,8 +351,9 @@ def run_plan(plan, cfg=None):
         else:
             for i in range(n):
                 if errors[i] is not None:
-                    viol("thread_died", f"thread{i}", errors[i])
-                    continue
+                    # calls into tensora are wrapped one by one in the thread body; anything that
+                    # kills the body itself is the harness's own fault
+                    raise RuntimeError(f"simulated thread {i} died in harness code: {errors[i]}")
                 for k, (pi, r) in enumerate(zip(plan["threads"][i], results[i])):
                     exp = ref[pi]
                     if r[0] == "exc":
